@@ -198,3 +198,28 @@ func (self *Analyzer) lastIsErrorAt(span errors.Span) bool {
     loop 1 invariant len(visited) >= entry(len(visited))
     loop 1 invariant forall k string in keys(visited) :: visited[k]
 @*/
+
+// ---------------------------------------------------------------------------
+// Template constraints of impl blocks (C03): an impl block is accepted only if
+// it implements every method its template requires for the chosen
+// capabilities and no method besides those - a missing or an additional
+// method is reported as an error.
+
+/*@ func (self *Analyzer) templateTypeFail
+    serves C03
+    assume-safety
+    ensures @only-reports len(self.diagnostics) >= old(len(self.diagnostics))
+    loop 1 invariant len(self.diagnostics) == entry(len(self.diagnostics))
+@*/
+
+/*@ func (self *Analyzer) validateTemplateConstraints
+    serves C03
+    assume-safety
+    assumepre TypeCheck
+    loopinvariant len(self.diagnostics) >= entry(len(self.diagnostics))
+    assert @missing-method-reported after if !isImplemented { :: isImplemented || len(self.diagnostics) > iterstart(len(self.diagnostics))
+    assert @implemented-means-present after isImplemented = true :: method.Ident.Ident() == reqName
+    loop "range methods" invariant !isImplemented ==> forall i in 0..rangeindex() :: methods[i].Ident.Ident() != reqName
+    loop "range methods"#2 progress @additional-method-reported haskey(requiredMethods, method.Ident.Ident()) || len(self.diagnostics) > iterstart(len(self.diagnostics))
+    loop "range requiredMethods"#2 invariant (isRequired ==> haskey(requiredMethods, method.Ident.Ident())) && (!isRequired ==> forall k string in keys(requiredMethods) :: visited(k) ==> k != method.Ident.Ident())
+@*/
